@@ -18,8 +18,8 @@ RULE = (
     "Histories (model-based, <= 14 steps, one shrinkable value) of process-wide activity - parsing unrelated descriptions, "
     "creating objects under other MasterConfig defaults, setting and restoring MasterConfig, clearing / disabling / "
     "re-enabling / pre-warming the TRS cache (with near-miss and probe strings), mutating dicts and lists returned by "
-    "trs_to_dict / to_dict / to_list / tracts_to_dict / list_trs / group_by / Config - interleaved with probe evaluations "
-    "from a pool of 96 probe calls (descriptions, tracts, TRS constructions and decompositions, find_twprge, with settings). "
+    "trs_to_dict / to_dict / to_list / tracts_to_dict / list_trs / group_by / Config, creating objects whose parse is deferred to a later step - interleaved with probe evaluations "
+    "from a pool of 100+ probe calls (descriptions, tracts, TRS constructions and decompositions, find_twprge, with settings). "
     "Every probe result is compared with the result of the same probe in a fresh interpreter (subprocesses, 6 probes each) "
     "started under the MasterConfig defaults in force at that moment. Non-trivial: a probe evaluated after at least one "
     "cache-affecting and one MasterConfig-affecting step. Distinct = distinct history."
@@ -38,6 +38,7 @@ DESCS = [
     ("Sec 100: NE/4 T154N-R97W", ""), ("no twprge here Sec 5: Lot 1", ""), ("TIS4N-R97W Sec 14: NE/4", "ocr_scrub"),
     ("T154-R97 Secs 3 - 1: Lots 5 - 1, Lot 2(40.1), Lot 2(39.9)", "parse_qq,n,e"), ("1N-3W Sec 1: NE/4, 11N-3W Sec 2: NW/4", ""),
     ("T154-R97 Sec 14: N/2NE/4NE/4", "parse_qq,qq_depth.1"), ("T154-R97 Sec 14: S/2NW/4NE/4", "parse_qq,break_halves,w"),
+    ("TIS4N-R97W Sec 14: NE/4", ""), ("Township lS4 North, Range 97 West Sec 14: NE, SW", "parse_qq"), ("T154N-R97W Sec 14: NE, SW", "parse_qq"),
 ]
 TRACTS = [("NE/4", ""), ("Lots 1, 1, N/2 of Lot 3", "parse_qq"), ("NE, SW", "parse_qq,clean_qq"), ("N/2SW/4, Lots 5 - 1", "parse_qq,qq_depth_min.3"),
           ("ALL", "parse_qq,qq_depth.1"), ("N/2 of Lot 1", "parse_qq,suppress_lot_divs")]
@@ -58,7 +59,7 @@ for s in TRS_STRS:
 for a in FROM:
     PROBES.append(["from_twprgesec", list(a)])
     PROBES.append(["tract_from_twprgesec", list(a)])
-for text, _ in DESCS[:7]:
+for text, _ in DESCS[:7] + DESCS[-3:]:
     PROBES.append(["find_twprge", text])
 
 
@@ -160,6 +161,9 @@ OP = st.one_of(
     st.tuples(st.just("mutate_trs_dict"), st.integers(0, len(TRS_STRS) - 1)),
     st.tuples(st.just("mutate_outputs"), st.integers(0, len(DESCS) - 1)),
     st.tuples(st.just("mutate_config"), st.integers(0, len(DESCS) - 1)),
+    st.tuples(st.just("create_deferred"), st.integers(0, len(DESCS) - 1)),
+    st.tuples(st.just("parse_deferred")),
+    st.tuples(st.just("side_tract"), st.integers(0, len(TRACTS) - 1), st.sampled_from(["", "clean_qq", "parse_qq,clean_qq"])),
 ).map(list)
 CASE = st.fixed_dictionaries({"ops": st.lists(OP, min_size=2, max_size=14), "final": st.lists(st.integers(0, len(PROBES) - 1), min_size=1, max_size=3)})
 
@@ -219,6 +223,31 @@ def oracle(c):
             return False
         return True
 
+    deferred = []       # objects created earlier in the history and only parsed later
+
+    def check_deferred(step):
+        nonlocal nontrivial
+        j, d, t = deferred.pop(0)
+        ns, ew = MasterConfig.default_ns, MasterConfig.default_ew
+        want = REFERENCE[(ns, ew, j)]
+        d.parse()
+        got = _norm({"pp": d.pp_desc, "layout": d.current_layout, "flags": sorted(map(str, d.flags)),
+                     "tracts": [[x.trs, x.desc, list(x.lots), list(x.qqs), sorted(map(str, x.flags)), x.twp_num, x.rge_ew] for x in d.tracts]})
+        if master_ops:
+            nontrivial = True
+        if got != want:
+            field = next((k for k in want if got.get(k) != want[k]), "?")
+            fails.append(Failure(f"history_dependence:deferred_plss:{field}",
+                                 f"step {step}: {PROBES[j]} created earlier and parsed now under MasterConfig {ns}{ew} gives {json.dumps(got)[:300]}, a fresh interpreter gives {json.dumps(want)[:300]}",
+                                 probe=PROBES[j], ops=c["ops"][:step + 1]))
+            return False
+        t.set_twprgesec(154, 97, 14)
+        if t.trs != f"154{ns}97{ew}14":
+            fails.append(Failure("defaults_in_force_ignored:deferred_tract", f"step {step}: a Tract created earlier, set_twprgesec(154, 97, 14) under MasterConfig {ns}{ew} gives {t.trs}",
+                                 ops=c["ops"][:step + 1]))
+            return False
+        return True
+
     try:
         TRS._clear_cache()
         for i, op in enumerate(c["ops"]):
@@ -227,6 +256,16 @@ def oracle(c):
             if name == "probe":
                 if not check(op[1], i):
                     break
+            elif name == "create_deferred":
+                j = op[1]            # PROBES[j] is the plss probe of DESCS[j]
+                text, cfg = DESCS[j]
+                deferred.append((j, PLSSDesc(text, config=cfg, wait_to_parse=True), Tract("NE/4")))
+            elif name == "parse_deferred":
+                if deferred and not check_deferred(i):
+                    break
+            elif name == "side_tract":
+                desc, _ = TRACTS[op[1]]
+                Tract(desc, config=op[2]).parse()
             elif name == "side_parse":
                 d = PLSSDesc(SIDE[op[1]], config=op[2])
                 d.parse_tracts()
@@ -291,6 +330,9 @@ def oracle(c):
             for j in c["final"]:
                 if not check(j, len(c["ops"])):
                     break
+        while deferred and not fails:
+            if not check_deferred(len(c["ops"])):
+                break
     finally:
         MasterConfig.default_ns, MasterConfig.default_ew = old_master
         TRS._USE_CACHE = old_cache
@@ -308,7 +350,7 @@ SUBS = [
     Sub("histories", oracle, strategy=lambda tier: CASE, nontrivial=lambda c: bool(_last.get("nt")), classes=classes, render=lambda c: c,
         n={"quick": 1500, "thorough": 12000}, shards={"quick": 8, "thorough": 16},
         essential=("op=probe", "op=set_master", "op=clear_cache", "op=cache_off", "op=prewarm", "op=mutate_trs_dict", "op=mutate_outputs",
-                   "op=under_defaults", "nontrivial")),
+                   "op=under_defaults", "op=create_deferred", "op=parse_deferred", "nontrivial")),
 ]
 
 if __name__ == "__main__" and len(sys.argv) > 1 and sys.argv[1] == "--reference":
